@@ -91,10 +91,13 @@ def rand_arg(rng):
 def corpus():
     mk = lambda k, s: {'kind': k, 'arg': R.cps(s), 'store': [R.cps(t) for t in derived_store(__import__('random').Random(1), s)]}
     return [
-        mk('contains', '\n'),            # witness of like_control_chars (mysql, postgres)
+        mk('contains', '\n'),            # witness of like_control_chars (mysql, postgres), fixed by fbe34cd
         mk('startswith', '\t'),
+        mk('endswith', 'a\x00\b\r'),
+        {'kind': 'contains', 'arg': R.cps('\x0012'), 'store': [R.cps('\n'), R.cps('x')]},    # witness of pg_nul_octal
         mk('startswith', '[a]'),         # witness of tsql_bracket_class
-        mk('endswith', 'a\\\nb'),        # witness of tsql_line_continuation
+        mk('endswith', '\\\n'),          # witness of tsql_line_continuation
+        mk('endswith', 'a\\\nb'),
         mk('contains', '50%_\\\''),
         mk('startswith', '%'),
         mk('endswith', '_'),
@@ -108,7 +111,7 @@ def generate(rng, tier):
     for s in all_strings(ARG_ALPHA, L):
         for k in KINDS:
             out.append({'kind': k, 'arg': R.cps(s), 'store': ['all', L]})
-    n = 700 if tier == 'quick' else 12000
+    n = 1500 if tier == 'quick' else 12000
     for _ in range(n):
         s = rand_arg(rng)
         out.append({'kind': rng.choice(KINDS), 'arg': R.cps(s), 'store': [R.cps(t) for t in derived_store(rng, s)]})
@@ -199,6 +202,8 @@ def run_impl(cases):
             for d, r in zip(R.DIALECTS, dec):
                 if d == 'sqlite':
                     continue
+                if r[0] == 'reject' and d == 'postgres' and '\x00' in s:
+                    continue          # PostgreSQL cannot hold NUL: refusing the pattern is the allowed outcome
                 if r[0] != 'ok' or r[2] != '':
                     other[d] = ['undecodable', r[0]]
                     continue
@@ -286,12 +291,13 @@ def oracle(c, o):
 
 
 def classify(c, o, f):
+    # like_control_chars (mysql/postgres, control characters) is fixed by fbe34cd: no longer a known class
     s = R.from_cps(c['arg'])
     d = f.get('dialect')
-    if d in ('mysql', 'postgres') and any(ch in s for ch in '\x00\b\n\r\t'):
-        return 'like_control_chars'
+    if d == 'postgres' and re.search('\x00[0-7]', s):
+        return 'pg_nul_octal'
     if d in ('mssql', 'sybase'):
-        if re.search(r'\\(\n|\r\n)', s.replace('\\', '\\\\')):
+        if re.search(r'\\(\n|\r\n)', s):
             return 'tsql_line_continuation'
         if '[' in s:
             return 'tsql_bracket_class'
